@@ -79,6 +79,12 @@ def r2(tree, rep):
     leader = cmp_atom(lambda e: is_self_attr(e, "_my_role"), lambda e: dotted(e) == "LEADER", (ast.Eq, ast.Is), (ast.NotEq, ast.IsNot))
     gc = g.call_nodes(lambda c: dotted(c.func) == "self._traffic.got_connection")
     mk = g.call_nodes(lambda c: dotted(c.func) == "TrafficTimer")
+    own, foreign = class_writers(tree, "Manager", "_my_role")
+    if not foreign and all(w.fn in ("__init__", "__attrs_post_init__") for w in own):
+        g.stable_atoms = [leader]        # the role never changes after construction: two tests of it agree
+    else:
+        g.local_atom_attrs = {"_my_role"}
+        g.local_atoms = [leader]         # two tests of it agree as long as nothing that could change self ran in between
     n_lead, always = g.when_must_pass(leader, True, gc)
     # only the leader runs a timer; as leader, every path to the return tells the timer about the new connection
     ok = len(gc) == 1 and len(mk) == 1 and n_lead > 0 and always and not g.only_when(gc + mk, leader, True)
@@ -151,7 +157,16 @@ def r2(tree, rep):
               key="C16.R2:ping-pong-traffic", what="traffic is reported from somewhere other than a matching pong, or pings are not sent")
     hp = tree.func(MGR, "Manager", "handle_pong")
     g = build(hp, split=True)
-    cb = g.call_nodes(lambda c: isinstance(c.func, ast.Name) and c.func.id == "on_pong")
+    # the callback is the first element of the entry taken out of _pings_outstanding, whatever the local is called
+    cbnames = set()
+    for a in ast.walk(hp):
+        if isinstance(a, ast.Assign) and len(a.targets) == 1 and isinstance(a.targets[0], ast.Tuple) and len(a.targets[0].elts) == 2 \
+                and isinstance(a.targets[0].elts[0], ast.Name):
+            v = a.value
+            if (isinstance(v, ast.Call) and dotted(v.func) == "self._pings_outstanding.pop") \
+                    or (isinstance(v, ast.Subscript) and is_self_attr(v.value, "_pings_outstanding")):
+                cbnames.add(a.targets[0].elts[0].id)
+    cb = g.call_nodes(lambda c: isinstance(c.func, ast.Name) and c.func.id in cbnames)
     outstanding = in_atom(lambda e: isinstance(e, ast.Name) and e.id in params(hp), lambda e: is_self_attr(e, "_pings_outstanding"))
     ok = len(cb) == 1 and bool(g.cond_edges(outstanding, False)) and not g.only_when(cb, outstanding, True)
     if ok:
